@@ -24,8 +24,8 @@ type c04Frame struct {
 
 type c04Case struct {
 	Frames []c04Frame `json:"frames"`
-	End    string     `json:"end"`  // panic | printstack | caller
-	Cfg    string     `json:"cfg"`  // default | literals | seed | tags
+	End    string     `json:"end"` // panic | printstack | caller
+	Cfg    string     `json:"cfg"` // default | literals | seed | tags
 	NPkgs  int        `json:"npkgs"`
 	Text   []string   `json:"text"` // surrounding text lines for the pass-through law
 	Pad    int        `json:"pad"`  // blank/comment lines inserted before functions
